@@ -75,7 +75,7 @@ def check_valid_signature(sig: bytes) -> None:
 def check_low_der_signature(sig_pair: tuple[int, int], generator: Any) -> None:
     # IsLowDERSignature
     r, s = sig_pair
-    hi_s = generator.p() - s
+    hi_s = generator.order() - s
     if hi_s < s:
         raise ScriptError("signature has high S value", errno.SIG_HIGH_S)
 
